@@ -136,8 +136,25 @@ func judgeREST(c *Ctx, srv *server, k restCase) {
 		r.Violate(r.Prop+"|/"+k.EP+"|"+cls+"|", "/"+k.EP+": "+what, "rest", k, exp, obs)
 	}
 	if res.Err != nil {
-		v("no-response", "no complete response to a well-formed request", "200 + JSON", res.Err.Error())
-		return
+		// confirm before blaming the service: the same request again on a fresh connection, and a trivial GET / —
+		// a well-formed request that stays unanswered while the server answers "/" promptly is a violation;
+		// if "/" is unanswered too the machine/server state is unclear (inconclusive unless the process died)
+		res2 := srv.do(k.Method, path, body, true, 60*time.Second)
+		home := srv.do("GET", "/", nil, true, 20*time.Second)
+		switch {
+		case res2.Err == nil:
+			res = res2
+			r.Count("requests_answered_only_on_retry", 1)
+		case !srv.alive():
+			v("server-died", "the server process exited", "200 + JSON", res.Err.Error())
+			return
+		case home.Err == nil:
+			v("no-response", "a well-formed request stays unanswered (twice, 60 s each) while the server answers GET / promptly", "200 + JSON", res2.Err.Error())
+			return
+		default:
+			r.Inconclusive("a well-formed request and GET / both went unanswered: " + k.EP)
+			return
+		}
 	}
 	if res.Status != 200 {
 		v("not-200", "a well-formed request is not answered with 200", "200", fmt.Sprintf("%d %s", res.Status, clipS(string(res.Body))))
@@ -378,10 +395,16 @@ func c18Cases(c *Ctx, n int) []restCase {
 			ts := uint64(1 + gen.UnixSeconds(rng, 30)%(1<<40))
 			period := gen.Pick(rng, []uint64{0, 1, 30, 60, 3600})
 			skew := uint64(rng.Intn(11))
+			if rng.Intn(3) == 0 {
+				skew = 0
+			}
 			if ref.Step(int64(ts), period) < skew {
 				ts += 11 * 3600
 			}
-			f["timestamp"], f["skew"] = ts, skew
+			f["timestamp"] = ts
+			if skew != 0 || rng.Bool() {
+				f["skew"] = skew // an omitted skew means 0 (history of earlier requests must not matter)
+			}
 			if period != 0 || rng.Bool() {
 				f["period"] = period
 			}
@@ -408,7 +431,18 @@ func c18Cases(c *Ctx, n int) []restCase {
 				ctr = 1<<63 + uint64(rng.Intn(100))
 			}
 			skew := uint64(rng.Intn(11))
-			f["counter"], f["skew"] = ctr, skew
+			if rng.Intn(3) == 0 {
+				skew = 0
+			}
+			if rng.Intn(8) == 0 {
+				ctr = 0
+			}
+			if ctr != 0 || rng.Bool() {
+				f["counter"] = ctr
+			}
+			if skew != 0 || rng.Bool() {
+				f["skew"] = skew
+			}
 			dist := int64(rng.Intn(int(2*skew+5))) - int64(skew) - 2
 			x := ctr + uint64(dist)
 			if dist < 0 && ctr < uint64(-dist) {
